@@ -179,18 +179,17 @@ Fixpoint dp_crit_loop (known : dp_filter) (pctx : bool) (l : list opt) (last : Z
       else dp_crit_loop known pctx t n s1
   end.
 
-(* the whole function: result state and the (possibly edited) option list.
+(* the whole function: result state (the Block2 edit is described by dp_fix_block2 below).
    The Block2 edit happens when the scan reaches the first Block2 option; the scan then
    restarts if the encoded size changed.  Setting filter slots and flags is idempotent, so a
    restarted scan ends in the same state as a single scan over the edited list. *)
-Definition dp_check_critical (cfg : dp_cfg) (req : msg) : dp_cstate * list opt :=
+Definition dp_check_critical (cfg : dp_cfg) (req : msg) : dp_cstate :=
   let opts := m_opts req in
   let isreq := dp_is_request (m_code req) in
   let pctx := isreq && (match c_prx cfg with Some _ => true | None => false end) &&
               (dp_has DP_PROXY_URI opts || dp_has DP_PROXY_SCHEME opts) in
   let known := dp_known_filter (c_known cfg) in
-  let s := dp_crit_loop known pctx opts (-1) (mkCs true dp_fempty false) in
-  (s, opts).
+  dp_crit_loop known pctx opts (-1) (mkCs true dp_fempty false).
 
 (* options of the request after the Block2 M-bit clearing (done only if the scan reaches the
    first Block2 option, i.e. the loop was not left early before it) *)
@@ -415,6 +414,29 @@ Definition dp_run (cfg : dp_cfg) (h : dp_hreq -> dp_hresp) (mc : bool) (req : ms
   else if c_mpr cfg && negb (nr_flag fl NR_F_HAS_MCAST) && mc then dp_fail cfg mc req rf 133
   else dp_invoke cfg h mc req t.
 
+(* handle_request(): resource look-up and what follows *)
+Definition dp_hr_lookup (cfg : dp_cfg) (h : dp_hreq -> dp_hresp) (mc : bool) (req : msg)
+           (is_proxy : bool) : list dp_ev :=
+  match dp_lookup cfg is_proxy (m_code req) (dp_uri_path (m_opts req)) with
+  | TNone => dp_fail cfg mc req None (if m_code req =? 4 then 66 else 132)
+  | t => dp_run cfg h mc req t
+  end.
+
+(* handle_request() after the proxy block: Hop-Limit, then the look-up *)
+Definition dp_hr_cont (cfg : dp_cfg) (h : dp_hreq -> dp_hresp) (mc : bool) (req : msg)
+           (is_proxy skip_hop : bool) : list dp_ev :=
+  let opts := m_opts req in
+  let with_opts o := mkMsg (m_type req) (m_code req) (m_mid req) (m_token req) o (m_payload req) in
+  if skip_hop then dp_hr_lookup cfg h mc (with_opts opts) is_proxy
+  else match dp_find DP_HOP_LIMIT opts with
+       | Some v =>
+           let hl := dp_decode v in
+           if hl =? 1 then dp_fail cfg mc req None 168
+           else if (hl <? 1) || (255 <? hl) then dp_fail cfg mc req None 128
+           else dp_hr_lookup cfg h mc (with_opts (dp_update DP_HOP_LIMIT (dp_encode (hl - 1)) opts)) is_proxy
+       | None => dp_hr_lookup cfg h mc (with_opts opts) is_proxy
+       end.
+
 (* handle_request() *)
 Definition dp_handle_request (cfg : dp_cfg) (h : dp_hreq -> dp_hresp) (mc : bool) (crit : bool)
            (req : msg) : list dp_ev :=
@@ -426,49 +448,24 @@ Definition dp_handle_request (cfg : dp_cfg) (h : dp_hreq -> dp_hresp) (mc : bool
     if has_ps && negb (dp_has DP_URI_HOST opts) then dp_fail cfg mc req None 130
     else
       let has_pu := dp_has DP_PROXY_URI opts in
-      (* outcome of the proxy block: None = failed/answered, Some (is_proxy, skip_hop) *)
-      let proxy_block : (list dp_ev) + (bool * bool) :=
-        if has_ps || has_pu then
-          match c_prx cfg with
-          | None => inl (dp_fail cfg mc req None 165)
-          | Some (pmask, pflags, names) =>
-              if (code <=? 7) && negb (dp_has_method pmask code) then inl (dp_fail cfg mc req None 165)
-              else if has_pu then inl [EvSkip]          (* Proxy-Uri splitting: C16's subject *)
-              else
-                let host := match dp_find DP_URI_HOST opts with Some v => v | None => [] end in
-                let mine :=
-                  (0 <? len host) && (0 <? len names) &&
-                  (match names with [[]] => true | _ => existsb (dp_bytes_eqb host) names end) in
-                if mine then
-                  if crit then inl (dp_fail cfg mc req (Some pflags) 130)
-                  else inr (false, true)
-                else inr (true, false)
-          end
-        else inr (false, false) in
-      match proxy_block with
-      | inl out => out
-      | inr (is_proxy, skip_hop) =>
-          let hop : (list dp_ev) + (list opt) :=
-            if skip_hop then inr opts
-            else match dp_find DP_HOP_LIMIT opts with
-                 | Some v =>
-                     let hl := dp_decode v in
-                     if hl =? 1 then inl (dp_fail cfg mc req None 168)
-                     else if (hl <? 1) || (255 <? hl) then inl (dp_fail cfg mc req None 128)
-                     else inr (dp_update DP_HOP_LIMIT (dp_encode (hl - 1)) opts)
-                 | None => inr opts
-                 end in
-          match hop with
-          | inl out => out
-          | inr opts2 =>
-              let req2 := mkMsg (m_type req) code (m_mid req) (m_token req) opts2 (m_payload req) in
-              let path := dp_uri_path opts2 in
-              match dp_lookup cfg is_proxy code path with
-              | TNone => dp_fail cfg mc req2 None (if code =? 4 then 66 else 132)
-              | t => dp_run cfg h mc req2 t
-              end
-          end
-      end.
+      if has_ps || has_pu then
+        match c_prx cfg with
+        | None => dp_fail cfg mc req None 165
+        | Some (pmask, pflags, names) =>
+            if (code <=? 7) && negb (dp_has_method pmask code) then dp_fail cfg mc req None 165
+            else if has_pu then [EvSkip]          (* Proxy-Uri splitting: C16's subject *)
+            else
+              let host := match dp_find DP_URI_HOST opts with Some v => v | None => [] end in
+              let mine :=
+                (0 <? len host) && (0 <? len names) &&
+                (match names with [[]] => true | _ => existsb (dp_bytes_eqb host) names end) in
+              if mine then
+                (* this server is the proxy endpoint named by Uri-Host *)
+                if crit then dp_fail cfg mc req (Some pflags) 130
+                else dp_hr_cont cfg h mc req false true
+              else dp_hr_cont cfg h mc req true false
+        end
+      else dp_hr_cont cfg h mc req false false.
 
 (* the OSCORE block of coap_dispatch(): an OSCORE option that passed the critical-option check
    (the application registered it) is handed to coap_oscore_decrypt_pdu(), which fails without
@@ -489,7 +486,7 @@ Definition dp_serve (cfg : dp_cfg) (h : dp_hreq -> dp_hresp) (mc : bool) (req : 
   let code := m_code req in
   if dp_bad_class code then (if ty =? NR_CON then dp_rst mc req else [])
   else
-    let '(s, _) := dp_check_critical cfg req in
+    let s := dp_check_critical cfg req in
     let opts1 := dp_fix_block2 cfg req in
     let req1 := mkMsg ty code (m_mid req) (m_token req) opts1 (m_payload req) in
     if negb (cs_ok s) then
